@@ -401,6 +401,9 @@ def pattern_program(r):
         "tailpat": ([], [([S("_"), S("a"), S("..."), S("y"), S("z")], q([[S("a"), S("...")], S("y"), S("z")]))]),
         "dot": ([], [([S("_"), S("a"), S("b"), DOT, S("rest")], q([S("a"), S("b"), S("rest")]))]),
         "dots": ([], [([S("_"), [S("a"), DOT, S("b")], S("...")], q([[S("b"), S("a")], S("...")]))]),
+        "tails": ([], [([S("_"), [S("a"), DOT, S("b")], S("...")], q([S("b"), S("...")]))]),
+        "tails2": ([], [([S("_"), [[S("k"), DOT, S("v")], S("...")], S("...")], q([[S("v"), S("...")], S("...")]))]),
+        "heads2": ([], [([S("_"), [[S("k"), DOT, S("v")], S("...")], S("...")], q([[S("k"), S("...")], S("...")]))]),
         "three": ([], [([S("_"), [[S("a"), S("b"), S("...")], S("...")], S("...")], q([[[S("b"), S("..."), S("a")], S("...")], S("...")]))]),
         "split": (["=>"], [([S("_"), S("x"), S("..."), S("=>"), S("y"), S("...")], q([[S("x"), S("...")], [S("y"), S("...")]])),
                            ([S("_"), S("x"), S("...")], q([S("none"), S("x"), S("...")]))]),
@@ -413,7 +416,13 @@ def pattern_program(r):
     lits, rules = fams[name]
     forms = [[S("define-syntax"), S(name), [S("syntax-rules"), [S(l) for l in lits]] + [[p, t] for p, t in rules]]]
     for _ in range(r.randint(2, 4)):
-        if name in ("flat", "flat2", "dots"):
+        if name in ("tails2", "heads2"):
+            args = [[[datum(r, 0), DOT, datum(r, 1)] if r.random() < 0.7 else [datum(r, 0)] + [datum(r, 0) for _ in range(r.randint(0, 2))]
+                     for _ in range(r.choice([0, 0, 1, 2, 3]))] for _ in range(r.randint(0, 4))]
+        elif name == "tails":
+            args = [[datum(r, 0), DOT, datum(r, 1)] if r.random() < 0.6 else [datum(r, 0)] + [datum(r, 0) for _ in range(r.randint(0, 2))]
+                    for _ in range(r.choice([0, 0, 1, 2, 3]))]
+        elif name in ("flat", "flat2", "dots"):
             args = [[datum(r, 1) for _ in range(r.randint(0 if name != "dots" else 1, 4))] for _ in range(r.randint(0, 3))]
             if name == "dots" and r.random() < 0.4 and args:
                 args[0] = [datum(r, 0), DOT, datum(r, 1)]
@@ -431,6 +440,54 @@ def pattern_program(r):
                 args = args[:2] + [DOT, datum(r, 0)]
         forms.append([S("verif-emit"), [S(name)] + args])
     return name, forms
+
+
+# ------------------------------------------------------------------------------------------- macros through a module chain
+
+def chain_program(r, moddir, idx):
+    """library module L (functions, some provided under a contract) <- macro module M (requires L, provides macros whose
+    templates call L's functions and M's own private helper) <- user file (requires M only, has unrelated definitions
+    and local bindings spelled like those functions).  -> (user text, expected emits, files)"""
+    names = r.sample(["area", "scale", "helper", "tmp", "norm", "size", "weight"], 3)
+    lib_a, lib_b, priv = names
+    ca, cb, cp = r.randint(1, 9), r.randint(1, 9), r.randint(1, 9)
+    contract_a = r.random() < 0.6
+    contract_b = r.random() < 0.3
+    d = os.path.join(moddir, "chain%d" % idx)
+    os.makedirs(d, exist_ok=True)
+    prov = []
+    for n, c in ((lib_a, contract_a), (lib_b, contract_b)):
+        prov.append("(contract/out %s (->/c number? number?))" % n if c else n)
+    lib = "(provide %s)\n(define (%s x) (+ (* x x) %d))\n(define (%s x) (+ (* 10 x) %d))\n" % (" ".join(prov), lib_a, ca, lib_b, cb)
+    open(os.path.join(d, "lib.scm"), "w").write(lib)
+    wrap = (lambda n: "(for-syntax %s)" % n) if r.random() < 0.5 else (lambda n: n)
+    mac = ('(require "lib.scm")\n(provide %s %s %s)\n(define (%s x) (+ x %d))\n'
+           '(define-syntax use-a (syntax-rules () ((_ e) (list (quote a) (%s e)))))\n'
+           '(define-syntax use-b (syntax-rules () ((_ e) (list (quote b) (%s e)))))\n'
+           '(define-syntax use-p (syntax-rules () ((_ e) (let ((t e)) (list (quote p) (%s (%s t)))))))\n') % (
+        wrap("use-a"), wrap("use-b"), wrap("use-p"), priv, 100 * cp, lib_a, lib_b, priv, lib_a)
+    open(os.path.join(d, "macros.scm"), "w").write(mac)
+    fa = lambda x: x * x + ca
+    fb = lambda x: 10 * x + cb
+    fp = lambda x: x + 100 * cp
+    lines = ['(require "%s")' % os.path.join(d, "macros.scm")]
+    exp = []
+    style = r.choice(["top-define", "local-let", "parameter", "none", "top-define"])
+    shadowed = r.sample([lib_a, lib_b, priv], r.randint(1, 3))
+    x1, x2, x3 = r.randint(0, 9), r.randint(0, 9), r.randint(0, 9)
+    if style == "top-define":
+        for n in shadowed:
+            lines.append("(define (%s x) (quote user-%s))" % (n, n))
+    calls = "(list (use-a %d) (use-b %d) (use-p %d))" % (x1, x2, x3)
+    if style == "local-let":
+        calls = "(let (%s) %s)" % (" ".join("(%s (lambda (x) (quote local)))" % n for n in shadowed), calls)
+    elif style == "parameter":
+        lines.append("(define (in-scope %s) %s)" % (" ".join(shadowed), calls))
+        calls = "(in-scope %s)" % " ".join("0" for _ in shadowed)
+    lines.append("(verif-emit %s)" % calls)
+    exp.append("(L (L y:\"a\" i:%d) (L y:\"b\" i:%d) (L y:\"p\" i:%d))" % (fa(x1), fb(x2), fp(fa(x3))))
+    return "\n".join(lines), ("ok", exp, ""), {"lib.scm": lib, "macros.scm": mac, "dir": d, "style": style, "shadowed": shadowed,
+                                               "contract": [contract_a, contract_b]}
 
 
 # ------------------------------------------------------------------------------------------------------------- oracle
@@ -707,6 +764,26 @@ def main(tier):
         path = text.split('"')[1]
         return {"module_file": path, "module_text": open(path).read()}
     judge(" (macros imported from a module)", "import", {}, {}, mod_a, mod_c, render_mod, extra)
+    # macros whose free identifiers come from a third module (plain and contract/out provides), used next to unrelated
+    # user definitions of the same spelling
+    nchain = 60 if tier == "quick" else 3000
+    chains = [chain_program(r, moddir, i) for i in range(nchain)]
+    got = run_texts([c[0] for c in chains], {}, {}, "c13c")
+    chain_styles = {}
+    for (text, exp, info), g in zip(chains, got):
+        if g is None:
+            continue
+        rep.count()
+        chain_styles[info["style"]] = chain_styles.get(info["style"], 0) + 1
+        rep.nontrivial(text + info["lib.scm"] + info["macros.scm"])
+        if g != exp:
+            what = g[0] if g[0].startswith(("died", "panic")) else ("outcome %s instead of %s" % (g[0], exp[0]) if g[0] != exp[0] else "wrong value")
+            rep.violation("C13 module chain (user shadows by %s; contract-provided: %s): %s" % (
+                info["style"], "yes" if any(info["contract"]) else "no", what),
+                "%s\nerror: %s\nlib.scm:\n%s\nmacros.scm:\n%s\nuser:\n%s" % (c01.first_diff(exp, g), ERRS.get(text, "")[:200], info["lib.scm"], info["macros.scm"], text),
+                {"config": {}, "opts": {}, "src": text, "expected": list(exp), "files": {os.path.join(info["dir"], "lib.scm"): info["lib.scm"],
+                                                                                        os.path.join(info["dir"], "macros.scm"): info["macros.scm"]}})
+    rep.note("module_chain_programs_by_shadowing_style", chain_styles)
     if len(rep.coverage["samples"]) < 6 and scen:
         sc, exp = scen[0]
         rep.sample({"colliding": "\n".join(render(f, False) for f in sc.forms())[:700], "apart": "\n".join(render(f, True) for f in sc.forms())[:700], "emitted": list(exp[1])})
@@ -720,6 +797,10 @@ def main(tier):
 
 def replay(path):
     d = json.load(open(path))["replay"]
+    for path, text in (d.get("files") or {}).items():
+        os.makedirs(os.path.dirname(path), exist_ok=True)
+        with open(path, "w") as f:
+            f.write(text)
     if d.get("module_file"):
         os.makedirs(os.path.dirname(d["module_file"]), exist_ok=True)
         with open(d["module_file"], "w") as f:
